@@ -4,6 +4,11 @@
 
 package flavors
 
+// C07, package-wide: a function that evaluates Lisp forms itself forwards the
+// return-from / go marker an evaluation hands back: nothing more is evaluated
+// and the marker is the function's result.
+//@ every-function flavors forward-exits
+
 // C11: flattening the components of a flavor never adds a second combination
 // that comes from a flavor already present in the method's list.
 //@ func flavors.(*Flavor).inheritFlavor
